@@ -35,13 +35,13 @@ PostOK(e) ==
        /\ LET b == objs'[r.oid] IN
             /\ b.id = r.id /\ b.addr = r.addr /\ b.backup = r.backup /\ b.sticky = r.sticky /\ b.weight = r.w
             /\ b.status = r.st /\ b.healthy = r.h /\ b.cs = r.cs /\ b.cf = r.cf
-            /\ b.tries = r.tries /\ b.waiting = r.wait
+            /\ b.tries = r.tries /\ Monus(b.wait, b.age) = r.left /\ Waiting(b) = r.wait
             /\ b.conns = r.conns /\ b.reqs = r.reqs /\ b.out = r.out /\ b.rout = r.rout
             /\ AvailableB(b) = r.avail
 
 T_Reset(e) ==
   /\ e.ev = "reset"
-  /\ objs' = <<>> /\ list' = <<>> /\ policy' = "random" /\ metric' = "conns"
+  /\ objs' = <<>> /\ list' = <<>> /\ policy' = "random" /\ metric' = "conns" /\ basis' = <<>>
   /\ nextOid' = 1 /\ aff' = {} /\ steps' = 0 /\ last' = [op |-> "Init"]
 
 T_Add(e) ==
@@ -59,12 +59,16 @@ T_Health(e) ==
 
 T_ResetHealth(e) == e.ev = "ResetHealth" /\ ResetHealth
 
+\* time passes for every cluster of the BackendMap at once: the event is recorded in each cluster's trace
+T_Elapse(e) == e.ev = "Elapse" /\ e.d \in Nat /\ e.d >= 1 /\ Elapse(e.d)
+
+\* `w`: the window the policy holds after the call, as the harness read it (the policy draws it at random); the
+\* spec decides whether the failure counts and which windows it may draw
 T_Obj(e) ==
-  /\ e.ev \in {"RetryFail", "RetrySucceed", "Elapse", "SetClosing", "Inc", "Dec", "ReqStart", "ReqEnd"}
+  /\ e.ev \in {"RetryFail", "RetrySucceed", "SetClosing", "Inc", "Dec", "ReqStart", "ReqEnd"}
   /\ e.oid \in Live
-  /\ CASE e.ev = "RetryFail"    -> RetryFail(e.oid)
+  /\ CASE e.ev = "RetryFail"    -> \E w \in (IF Waiting(objs[e.oid]) THEN {1} ELSE {e.w}) : RetryFail(e.oid, w)
        [] e.ev = "RetrySucceed" -> RetrySucceed(e.oid)
-       [] e.ev = "Elapse"       -> BackoffElapse(e.oid)
        [] e.ev = "SetClosing"   -> SetClosing(e.oid)
        [] e.ev = "Inc"          -> Open(e.oid) /\ last'.ret = e.ret
        [] e.ev = "Dec"          -> Close(e.oid) /\ last'.ret = e.ret
@@ -75,7 +79,8 @@ T_Obj(e) ==
 T_Connect(e) ==
   /\ e.ev = "Connect"
   /\ CASE e.res = "ok"   -> e.oid \in Live /\ ConnectOk(e.sticky, e.oid)
-       [] e.res = "fail" -> \E o \in Live : (e.addr = 0 \/ objs[o].addr = e.addr) /\ ConnectFail(e.sticky, o)
+       [] e.res = "fail" -> \E o \in Live : /\ (e.addr = 0 \/ objs[o].addr = e.addr)
+                                              /\ \E w \in WaitChoices(objs[o]) : ConnectFail(e.sticky, o, w)
        [] e.res = "none" -> ConnectNone(e.sticky)
        [] OTHER          -> FALSE
 
@@ -86,7 +91,7 @@ T_Keyed(e) ==
 \* an affinity answer that only the open deviation (table rebuilt although the eligible set is the same) explains
 NeedsDeviation(e) ==
   /\ e.ev = "Keyed" /\ e.oid # NoOid /\ Affine(e.key)
-  /\ \E r \in aff : r.key = e.key /\ r.coarse = Coarse(Eligible) /\ r.addr # objs[e.oid].addr
+  /\ \E r \in aff : r.policy = policy /\ r.key = e.key /\ r.coarse = Coarse(Eligible) /\ r.addr # objs[e.oid].addr
 
 TraceNext ==
   /\ l < Len(Rec)
@@ -94,7 +99,7 @@ TraceNext ==
   /\ LET e == Rec[l + 1] IN
        /\ \/ T_Reset(e)
           \/ /\ \/ T_Add(e) \/ T_Remove(e) \/ T_SetPolicy(e) \/ T_Health(e) \/ T_ResetHealth(e)
-                \/ T_Obj(e) \/ T_Connect(e) \/ T_Keyed(e)
+                \/ T_Elapse(e) \/ T_Obj(e) \/ T_Connect(e) \/ T_Keyed(e)
              /\ PostOK(e)
        /\ devs' = IF NeedsDeviation(e) THEN devs + 1 ELSE devs
 
